@@ -44,6 +44,7 @@ func (e *Engine) VerifyFunc(b Bound) (u *Unit) {
 	fr.top = true
 	fr.contract = c
 	entry := &state{over: map[string]string{}, base: &entryProv{tag: "entry", cache: map[string]string{}}, u: u}
+	u.entryState = entry
 	alloc0 := entry.get(u, allocKey)
 	mkParam := func(name string, t types.Type, isRecv bool) Val {
 		srt := u.sortOf(t)
@@ -74,27 +75,8 @@ func (e *Engine) VerifyFunc(b Bound) (u *Unit) {
 	}
 	// preconditions
 	penv := &specEnv{u: u, st: entry, old: entry, vars: map[string]Val{}, pkgPath: c.PkgPath, callee: fn, entryHeld: u.entryHeld}
-	// requires clauses are translated twice: the first pass only collects the locks named by held(...)
-	{
-		scan := *penv
-		scan.st = &state{over: map[string]string{}, base: &recProv{keys: map[string]bool{}}}
-		scan.old = scan.st
-		scan.vars = map[string]Val{}
-		for _, p := range fn.Params {
-			scan.vars[p.Name()] = Val{t: q("in!" + p.Name()), typ: p.Type()}
-		}
-		for _, rq := range c.Requires {
-			scan.boolExpr(rq.E)
-		}
-		penv.entryHeld = nil
-	}
 	for i, p := range fn.Params {
 		penv.vars[p.Name()] = params[i]
-	}
-	for i, fv := range fn.FreeVars {
-		// free variables are captured by reference; in specs the name denotes the pointee
-		p := u.ptrFromRef(free[i].t, fv.Type().Underlying().(*types.Pointer).Elem())
-		_ = p
 	}
 	pre := "true"
 	var pres []string
@@ -108,6 +90,12 @@ func (e *Engine) VerifyFunc(b Bound) (u *Unit) {
 		pres = append(pres, t)
 		penv.recordHyps(rq.E, "")
 	}
+	penv.entryHeld = nil
+	u.entryHeldReady = true
+	for i := 0; i+1 < len(u.pendingHeld); i += 2 {
+		u.entryHeldAssume(u.pendingHeld[i], u.pendingHeld[i+1])
+	}
+	u.pendingHeld = nil
 	if len(pres) > 0 {
 		pre = u.define("pre", "Bool", "(and true "+strings.Join(pres, " ")+")")
 	}
